@@ -891,7 +891,12 @@ func (p *parser) parseConditionalExpression() ast.Expression {
 		}
 		p.next()
 
+		// The middle operand is an AssignmentExpression in which `in` is
+		// allowed even inside a for-init (ECMA-262 5.1 - 11.12).
+		allowIn := p.scope.allowIn
+		p.scope.allowIn = true
 		consequent := p.parseAssignmentExpression()
+		p.scope.allowIn = allowIn
 		if p.mode&StoreComments != 0 {
 			p.comments.Unset()
 		}
